@@ -14,6 +14,7 @@ import (
 	"fmt"
 	"math/rand"
 	"os"
+	"runtime"
 	"strconv"
 	"sync"
 	"sync/atomic"
@@ -105,6 +106,78 @@ func nativeBigBatch(r *nrec, rng *rand.Rand) {
 	w.Stop()
 	r.stat("bigbatch.items", n)
 	nativeBigPurge(r, rng)
+	nativeMixedErrBatch(r, rng)
+}
+
+// N1c: an error batch whose items fail, succeed and panic side by side on several pool
+// goroutines: the error stream carries exactly one error per failed item, its own (C08, C07)
+func nativeMixedErrBatch(r *nrec, rng *rand.Rand) {
+	for round := 0; round < 3; round++ {
+		n := 300 + rng.Intn(300)
+		w := NewErrWorker(func(j Job[int]) error {
+			switch j.Data() % 3 {
+			case 0:
+				return fmt.Errorf("e%d", j.Data())
+			case 1:
+				return nil
+			}
+			panic(fmt.Sprintf("p%d", j.Data()))
+		}, 4+rng.Intn(4))
+		go func() {
+			for range w.Errs() {
+			}
+		}()
+		q := w.BindQueue()
+		items := make([]Item[int], n)
+		for i := range items {
+			items[i] = Item[int]{ID: strconv.Itoa(i), Data: i}
+		}
+		g := q.AddAll(items)
+		seen := map[string]int{}
+		ok := within(20*time.Second, func() {
+			for e := range g.Errs() {
+				seen[e.Error()]++
+			}
+		})
+		if !ok {
+			r.add("C08", "stream-not-closed", "mixed error batch of %d items: the stream was not closed within 20 s", n)
+			w.Stop()
+			continue
+		}
+		want := 0
+		for i := 0; i < n; i++ {
+			var key string
+			switch i % 3 {
+			case 0:
+				key = fmt.Sprintf("e%d", i)
+			case 2:
+				key = fmt.Sprintf("p%d", i)
+			default:
+				continue
+			}
+			want++
+			c := 0
+			for k, v := range seen {
+				if k == key || (len(k) > len(key)+2 && k[len(k)-len(key)-2:] == ": "+key) {
+					c += v
+				}
+			}
+			if c != 1 {
+				r.add("C08", "wrong-result", "mixed error batch of %d items: the error of item %d (%s) was delivered %d times", n, i, key, c)
+				r.add("C07", "wrong-outcome", "mixed error batch of %d items: the error of item %d (%s) was delivered %d times", n, i, key, c)
+				break
+			}
+		}
+		total := 0
+		for _, v := range seen {
+			total += v
+		}
+		if total != want {
+			r.add("C08", "missing-result", "mixed error batch of %d items: %d items failed, the stream carried %d errors", n, want, total)
+		}
+		w.Stop()
+		r.stat("mixederr.items", n)
+	}
 }
 
 // N1b: a batch that spans several segments of the FIFO queue is purged while it is pending: every
@@ -581,6 +654,54 @@ func nativeRaceMix(r *nrec, rng *rand.Rand, round int) {
 	r.stat("racemix.handles", len(handles))
 }
 
+// N5: a concurrency value below 1 means the number of CPUs, whatever GOMAXPROCS has been set to (C02)
+func nativeCpus(r *nrec, rng *rand.Rand) {
+	ncpu := runtime.NumCPU()
+	old := runtime.GOMAXPROCS(ncpu + 3)
+	defer runtime.GOMAXPROCS(old)
+	for _, how := range []string{"config", "tune"} {
+		var in, peak atomic.Int64
+		gate := make(chan struct{})
+		fn := func(j Job[int]) {
+			n := in.Add(1)
+			for {
+				p := peak.Load()
+				if n <= p || peak.CompareAndSwap(p, n) {
+					break
+				}
+			}
+			<-gate
+			in.Add(-1)
+		}
+		var w IWorkerBinder[int]
+		if how == "config" {
+			w = NewWorker(fn, WithConcurrency(0))
+		} else {
+			w = NewWorker(fn, WithConcurrency(2))
+		}
+		q := w.BindQueue()
+		if how == "tune" {
+			w.TunePool(-1)
+		}
+		total := ncpu + 8
+		for i := 0; i < total; i++ {
+			q.Add(i)
+		}
+		settle(func() bool { return int(in.Load()) >= ncpu+1 }) // gives an over-dispatch up to 2 s to show
+		time.Sleep(20 * time.Millisecond)
+		if p := int(peak.Load()); p > ncpu {
+			r.add("C02", "over-limit", "concurrency < 1 (%s) with GOMAXPROCS=%d on %d CPUs: %d worker functions in flight at once, the limit is the number of CPUs", how, ncpu+3, ncpu, p)
+		}
+		if c := w.NumConcurrency(); c != ncpu {
+			r.add("C02", "wrong-limit", "concurrency < 1 (%s) with GOMAXPROCS=%d on %d CPUs: NumConcurrency reports %d", how, ncpu+3, ncpu, c)
+		}
+		close(gate)
+		w.WaitUntilFinished()
+		w.Stop()
+		r.stat("cpus.jobs", total)
+	}
+}
+
 func TestVerifNative(t *testing.T) {
 	out := os.Getenv("VERIF_OUT")
 	if out == "" {
@@ -600,6 +721,9 @@ func TestVerifNative(t *testing.T) {
 	}
 	if has("bigburst") {
 		nativeBigBurst(r, rng)
+	}
+	if has("cpus") {
+		nativeCpus(r, rng)
 	}
 	if has("outcomes") {
 		nativeOutcomes(r, rng)
